@@ -66,11 +66,12 @@ def setup(cfg, a0, b0, a1, b1, a2, b2, c0, d0, pb, pi):
         if pat == 'loop' or directed:
             pr = False
             mr = False
-        ok = inv.events_ok(pre_tl, k, pf & present, pr & present, mf & present, mr & present, minlen)
-        if by:
+        ok = True if cfg.get("noinv") else \
+            inv.events_ok(pre_tl, k, pf & present, pr & present, mf & present, mr & present, minlen)
+        if by and not cfg.get("noinv"):
             # events of the bystander pair obey the same invariant w.r.t. its own timeline
             ok = ok & inv.events_ok(pre_btl, k, bp & present, False, bm & present, False, minlen)
-        else:
+        elif not by:
             bp = False
         ok = ok & (((pf | pr | mf | mr | op | om | bp | bm) == False) | present)  # noqa: E712
         assume(ok)
@@ -173,15 +174,17 @@ def step(cfg, a0, b0, a1, b1, a2, b2, c0, d0, t, l, q, pb, pi):
     bwas = sbool(inv.present_at(pre_btl, q))
     # pre-state at q is materialised before the call so that "unchanged" can be stated
     evq = snq = pre_pres_q = pre_bits_q = pre_sn_q = oth_q = None
-    if what in ('ev', 'close', 'trace'):
+    if what in ('ev', 'close'):
         evq = g.time_to_edge._find(q)
         pre_pres_q = evq[1]
         pre_bits_q = evq[2].bits()
-    if what in ('snap', 'trace'):
+    if what in ('snap',):
         snq = g.snapshots._find(q)
         pre_sn_q = (snq[1], snq[2])
         oth_q = S["oth_at"][-1][1]
     should_reject = n > 0 and sbool(t < pre_tl[-1][0])
+    if cfg.get("only_reject"):
+        assume(should_reject)
     nodes_before = set(g._node)
     try:
         g.add_interaction(u, v, t, e)
@@ -292,25 +295,28 @@ def unchanged(S, evq, pre_pres_q, pre_bits_q, snq, pre_sn_q, nodes_before):
     if S["n"] > 0:
         if adj[S["su"]][S["sv"]] is not S["dd"] or S["dd"]['t'] is not S["tl"] or S["tl"] != S["pre_tl"]:
             return False
+        if S["directed"] and g._pred[S["sv"]][S["su"]] is not S["dd"]:
+            return False
+        if not S["directed"] and adj[S["sv"]][S["su"]] is not S["dd"]:
+            return False
     else:
         if S["su"] in adj and S["sv"] in adj[S["su"]]:
             return False
-    # every touched key still has its materialised value
+    # every instant that was looked up still has the content it was materialised with (identity first: no forks)
     for ent in g.time_to_edge.ent:
-        if ent is evq:
-            if sbool(ent[1]) != sbool(pre_pres_q):
+        if ent[1] is not ent[3] and sbool(ent[1]) != sbool(ent[3]):
+            return False
+        if sbool(ent[3]):
+            now = ent[2].bits() if ent[2] is not None else []
+            for (k0, b0), (k1, b1) in zip(ent[4], now):
+                if k0 != k1 or (b1 is not b0 and sbool(b1) != sbool(b0)):
+                    return False
+            if len(now) != len(ent[4]):
                 return False
-            if sbool(ent[1]):
-                for k_, b_ in pre_bits_q:
-                    if sbool(ent[2].bit(k_)) != sbool(b_):
-                        return False
-        else:
-            return False      # a rejected call must not even look at other instants' events
     for ent in g.snapshots.ent:
-        if ent is snq:
-            if sbool(ent[1]) != sbool(pre_sn_q[0]) or (sbool(ent[1]) and not sbool(ent[2] == pre_sn_q[1])):
-                return False
-        else:
+        if ent[1] is not ent[3] and sbool(ent[1]) != sbool(ent[3]):
+            return False
+        if sbool(ent[3]) and ent[2] is not ent[4] and not sbool(ent[2] == ent[4]):
             return False
     return True
 
